@@ -153,6 +153,21 @@ def spec_invalid(spec):
     return given == 0
 
 
+def unencodable(p, enc):
+    """True if the point holds text the file's encoding cannot represent
+    (storing it must fail with a UnicodeError and change nothing)."""
+    def bad(x):
+        if not isinstance(x, str):
+            return False
+        try:
+            x.encode(enc)
+            return False
+        except UnicodeError:
+            return True
+    return bad(p.m) or any(bad(k) or bad(v) for k, v in p.tags.items()) or \
+        any(bad(k) for k in p.fields)
+
+
 def select_keys_invalid(keys):
     keys = unjson(keys)
     if isinstance(keys, str):
@@ -827,7 +842,10 @@ class World:
                 return ("raises", (TypeError,))
             if pt.get("mutate"):
                 return ("raises", bad)
-            mdl.insert(pt, m, now)
+            p = mdl.insert(pt, m, now)
+            if self.csv and unencodable(p, self.encoding):
+                mdl.points.pop()
+                return ("raises", (UnicodeError,))
             return ("ret", 1)
         if k == "insert_multiple":
             if not self.can("append"):
@@ -842,7 +860,10 @@ class World:
                     return ("raises", (TypeError,))
                 if pt.get("mutate"):
                     return ("raises", bad)
-                mdl.insert(pt, m, now)
+                p = mdl.insert(pt, m, now)
+                if self.csv and unencodable(p, self.encoding):
+                    mdl.points.pop()
+                    return ("raises", (UnicodeError,))
                 n += 1
             if poison and poison["kind"] == "raise" and \
                     poison["at"] >= len(op["pts"]):
@@ -857,7 +878,16 @@ class World:
                 return ("raises", bad)
             if k == "update" and isinstance(q, dict) and "bad" in q:
                 return ("raises", bad)
-            return ("ret", mdl.update(q, m, op["spec"]))
+            before = [p.copy() for p in mdl.points] if self.csv else None
+            cnt = mdl.update(q, m, op["spec"])
+            if self.csv and cnt and any(
+                    unencodable(p, self.encoding) for p in mdl.points
+                    if p.touched):
+                # a callable produced text outside the file's encoding: the
+                # rewrite must fail and leave everything as it was
+                mdl.points = before
+                return ("raises", (UnicodeError,))
+            return ("ret", cnt)
         if k == "remove":
             q = op["q"]
             if isinstance(q, dict) and "bad" in q:
